@@ -1,13 +1,1357 @@
 package main
 
-import "fmt"
+// Replay of a solver counterexample against the real code.
+//
+// For a refuted obligation of a whole-function unit the entry state of the model is read back from the solver
+// (get-value on every entry symbol, arrays element by element), an in-package Go test is generated that builds
+// that state, calls the REAL function and evaluates the contract clauses (compiled from the same clause ASTs the
+// verifier used) on the observed result, and the test is run with `go test -overlay` (nothing is written to /repo).
 
-func tryReplay(prog *Program, cs *ContractSet, prop string, r ObResult, rep *Replay, timeout int) {}
+import (
+	"encoding/json"
+	"fmt"
+	"go/ast"
+	"go/token"
+	"go/types"
+	"math/big"
+	"os"
+	"os/exec"
+	"path/filepath"
+	"regexp"
+	"sort"
+	"strings"
+)
+
+func extraAssumptions(prop string) []string { return nil }
+
+// ---------- model read-back ----------
+
+type entryLeaf struct {
+	goLval string // Go lvalue text, e.g. g.WG[0][3]
+	term   *Term
+	kind   SortKind
+}
+
+const maxSliceReplay = 24
+const maxLeaves = 6000
+
+// leavesOf expands the value stored under a key into scalar leaves (Go lvalue + SMT term).
+func leavesOf(lval string, t types.Type, term *Term, out *[]entryLeaf, lens map[string]*Term, key string) bool {
+	switch u := t.Underlying().(type) {
+	case *types.Basic:
+		k := sortOf(t).K
+		if k == SInt || k == SReal || k == SBool {
+			*out = append(*out, entryLeaf{lval, term, k})
+			return true
+		}
+		return k == SStr // strings keep their zero value (contents are not modelled)
+	case *types.Array:
+		if u.Len() > 400 {
+			return false
+		}
+		for i := int64(0); i < u.Len(); i++ {
+			if !leavesOf(fmt.Sprintf("%s[%d]", lval, i), u.Elem(), Select(term, IntLit(i)), out, lens, "") {
+				return false
+			}
+			if len(*out) > maxLeaves {
+				return false
+			}
+		}
+		return true
+	case *types.Slice:
+		if key == "" {
+			return false
+		}
+		for i := int64(0); i < maxSliceReplay; i++ {
+			if !leavesOf(fmt.Sprintf("%s[%d]", lval, i), u.Elem(), Select(term, IntLit(i)), out, lens, "") {
+				return false
+			}
+		}
+		return true
+	}
+	return false
+}
+
+func ratOfSexp(s string) (*big.Rat, bool) {
+	s = strings.TrimSpace(s)
+	if strings.HasPrefix(s, "(") {
+		inner := strings.TrimSpace(s[1 : len(s)-1])
+		parts := splitSexp(inner)
+		if len(parts) == 2 && parts[0] == "-" {
+			r, ok := ratOfSexp(parts[1])
+			if !ok {
+				return nil, false
+			}
+			return new(big.Rat).Neg(r), true
+		}
+		if len(parts) == 3 && parts[0] == "/" {
+			a, ok1 := ratOfSexp(parts[1])
+			b, ok2 := ratOfSexp(parts[2])
+			if !ok1 || !ok2 || b.Sign() == 0 {
+				return nil, false
+			}
+			return new(big.Rat).Quo(a, b), true
+		}
+		return nil, false
+	}
+	s = strings.TrimSuffix(s, "?")
+	r, ok := new(big.Rat).SetString(s)
+	return r, ok
+}
+
+func splitSexp(s string) []string {
+	var out []string
+	depth := 0
+	start := -1
+	for i := 0; i < len(s); i++ {
+		c := s[i]
+		switch {
+		case c == '(':
+			if depth == 0 && start < 0 {
+				start = i
+			}
+			depth++
+		case c == ')':
+			depth--
+			if depth == 0 {
+				out = append(out, s[start:i+1])
+				start = -1
+			}
+		case c == ' ' || c == '\n' || c == '\t':
+			if depth == 0 && start >= 0 {
+				out = append(out, s[start:i])
+				start = -1
+			}
+		default:
+			if start < 0 {
+				start = i
+			}
+		}
+	}
+	if start >= 0 {
+		out = append(out, s[start:])
+	}
+	return out
+}
+
+func goLiteral(val string, k SortKind) (string, bool) {
+	switch k {
+	case SBool:
+		if val == "true" || val == "false" {
+			return val, true
+		}
+		return "", false
+	case SInt:
+		r, ok := ratOfSexp(val)
+		if !ok || !r.IsInt() {
+			return "", false
+		}
+		if r.Num().BitLen() > 62 {
+			return "", false
+		}
+		return r.Num().String(), true
+	case SReal:
+		r, ok := ratOfSexp(val)
+		if !ok {
+			return "", false
+		}
+		f, _ := r.Float64()
+		return fmt.Sprintf("%v", f), true
+	}
+	return "", false
+}
+
+// ---------- clause -> Go ----------
+
+type goCtx struct {
+	x       *Exec
+	sp      *SpecCtx
+	st      *State
+	bound   map[string]string // spec-bound names -> Go code (already of the right Go type)
+	bkind   map[string]SortKind
+	old     bool
+	ptrPars map[string]bool   // pointer parameters (have an old_ copy)
+	valPars map[string]bool   // value parameters and receiver
+	results map[string]string // result names -> Go variables
+	alias   map[string]string // macro parameter -> identifier of the enclosing function it stands for
+	ghosts  map[string]bool   // input-only ghost variables (read from the model into gh_<name>)
+	fail    string
+}
+
+func (c *goCtx) failf(f string, a ...interface{}) (string, SortKind) {
+	if c.fail == "" {
+		c.fail = fmt.Sprintf(f, a...)
+	}
+	return "false", SBool
+}
+
+func (c *goCtx) with(name, code string, k SortKind, v Value) *goCtx {
+	n := *c
+	n.bound = map[string]string{}
+	n.bkind = map[string]SortKind{}
+	for a, b := range c.bound {
+		n.bound[a] = b
+	}
+	for a, b := range c.bkind {
+		n.bkind[a] = b
+	}
+	n.bound[name] = code
+	n.bkind[name] = k
+	n.sp = c.sp.with(name, v)
+	return &n
+}
+
+// kindOf asks the verifier's own evaluator for the sort of a spec expression.
+func (c *goCtx) kindOf(e ast.Expr) (SortKind, bool) {
+	c.x.specDepth++
+	c.x.dry++
+	nerr := len(c.x.errs)
+	st := c.st
+	if c.old && c.sp.old != nil {
+		st = c.sp.old
+	}
+	v := c.x.eval(e, st.clone(), c.sp)
+	c.x.dry--
+	c.x.specDepth--
+	c.x.errs = c.x.errs[:nerr]
+	if v.Term == nil {
+		return SU, false
+	}
+	return v.Term.S.K, true
+}
+
+func conv(code string, from, to SortKind) string {
+	if from == to {
+		return code
+	}
+	if from == SInt && to == SReal {
+		return "float64(" + code + ")"
+	}
+	if from == SReal && to == SInt {
+		return "int(" + code + ")"
+	}
+	return code
+}
+
+func goTypeOfKind(k SortKind) string {
+	switch k {
+	case SInt:
+		return "int"
+	case SReal:
+		return "float64"
+	case SBool:
+		return "bool"
+	case SStr:
+		return "string"
+	}
+	return "interface{}"
+}
+
+// leaf compiles an lvalue-like expression (identifier, field, index) to Go source.
+func (c *goCtx) leafSrc(e ast.Expr) (string, bool) {
+	switch e := e.(type) {
+	case *ast.ParenExpr:
+		return c.leafSrc(e.X)
+	case *ast.Ident:
+		if a, ok := c.alias[e.Name]; ok {
+			c2 := *c
+			c2.alias = nil
+			return c2.leafSrc(&ast.Ident{Name: a})
+		}
+		if code, ok := c.bound[e.Name]; ok {
+			return code, true
+		}
+		if r, ok := c.results[e.Name]; ok {
+			return r, true
+		}
+		if c.ghosts[e.Name] {
+			return "gh_" + e.Name, true
+		}
+		if c.ptrPars[e.Name] {
+			if c.old {
+				return "old_" + e.Name, true
+			}
+			return e.Name, true
+		}
+		if c.valPars[e.Name] {
+			return "p_" + e.Name, true
+		}
+		// package-level constants and variables of the package under test
+		if obj := c.x.pkg.Scope().Lookup(e.Name); obj != nil {
+			switch obj.(type) {
+			case *types.Const, *types.Var:
+				return e.Name, true
+			}
+		}
+		return "", false
+	case *ast.SelectorExpr:
+		if id, ok := e.X.(*ast.Ident); ok {
+			if _, isBound := c.bound[id.Name]; !isBound && !c.ptrPars[id.Name] && !c.valPars[id.Name] {
+				if id.Name == "math" {
+					return "math." + e.Sel.Name, true
+				}
+			}
+		}
+		b, ok := c.leafSrc(e.X)
+		if !ok {
+			return "", false
+		}
+		return b + "." + e.Sel.Name, true
+	case *ast.IndexExpr:
+		b, ok := c.leafSrc(e.X)
+		if !ok {
+			return "", false
+		}
+		ic, ik := c.expr(e.Index)
+		if c.fail != "" {
+			return "", false
+		}
+		if ik == SInt {
+			return b + "[" + ic + "]", true
+		}
+		if ik == SStr {
+			return b + "[" + ic + "]", true
+		}
+		return b + "[int(" + ic + ")]", true
+	}
+	return "", false
+}
+
+func (c *goCtx) boolExpr(e ast.Expr) string {
+	code, k := c.expr(e)
+	if k != SBool && c.fail == "" {
+		c.failf("boolean expected: %s", exprText(e))
+	}
+	return code
+}
+
+func (c *goCtx) numPair(a, b ast.Expr) (string, string, SortKind) {
+	ca, ka := c.expr(a)
+	cb, kb := c.expr(b)
+	if ka == SInt && kb == SInt {
+		return ca, cb, SInt
+	}
+	if (ka == SInt || ka == SReal) && (kb == SInt || kb == SReal) {
+		return conv(ca, ka, SReal), conv(cb, kb, SReal), SReal
+	}
+	return ca, cb, ka
+}
+
+func (c *goCtx) quant(name string, e *ast.CallExpr, lo, hi, body ast.Expr, forall bool) (string, SortKind) {
+	id, ok := e.Args[0].(*ast.Ident)
+	if !ok {
+		return c.failf("quantifier binder")
+	}
+	cl, kl := c.expr(lo)
+	ch, kh := c.expr(hi)
+	c.x.fresh++
+	sym := Sym(fmt.Sprintf("rq?%d", c.x.fresh), IntS)
+	c2 := c.with(id.Name, "q_"+id.Name, SInt, Value{T: intT, Term: sym})
+	cb := c2.boolExpr(body)
+	if c2.fail != "" {
+		c.fail = c2.fail
+	}
+	fn := "hvcForall"
+	if !forall {
+		fn = "hvcExists"
+	}
+	return fmt.Sprintf("%s(%s, %s, func(q_%s int) bool { return %s })", fn, conv(cl, kl, SInt), conv(ch, kh, SInt), id.Name, cb), SBool
+}
+
+func (c *goCtx) expr(e ast.Expr) (string, SortKind) {
+	if c.fail != "" {
+		return "false", SBool
+	}
+	switch e := e.(type) {
+	case *ast.ParenExpr:
+		code, k := c.expr(e.X)
+		return "(" + code + ")", k
+	case *ast.BasicLit:
+		switch e.Kind {
+		case token.INT:
+			return e.Value, SInt
+		case token.FLOAT:
+			return "float64(" + e.Value + ")", SReal
+		case token.STRING:
+			return e.Value, SStr
+		}
+		return c.failf("literal %s", e.Value)
+	case *ast.Ident:
+		switch e.Name {
+		case "true", "false":
+			return e.Name, SBool
+		}
+		if code, ok := c.bound[e.Name]; ok {
+			return code, c.bkind[e.Name]
+		}
+		src, ok := c.leafSrc(e)
+		if !ok {
+			return c.failf("%s is not observable from a test (local or ghost variable)", e.Name)
+		}
+		k, ok := c.kindOf(e)
+		if !ok {
+			return c.failf("no sort for %s", e.Name)
+		}
+		return c.wrapLeaf(src, k), k
+	case *ast.SelectorExpr, *ast.IndexExpr:
+		src, ok := c.leafSrc(e)
+		if !ok {
+			if c.fail != "" {
+				return "false", SBool
+			}
+			return c.failf("%s is not observable from a test", exprText(e))
+		}
+		k, ok := c.kindOf(e)
+		if !ok {
+			return c.failf("no sort for %s", exprText(e))
+		}
+		return c.wrapLeaf(src, k), k
+	case *ast.UnaryExpr:
+		code, k := c.expr(e.X)
+		switch e.Op {
+		case token.NOT:
+			return "!(" + code + ")", SBool
+		case token.SUB:
+			return "(-(" + code + "))", k
+		case token.ADD:
+			return code, k
+		}
+		return c.failf("unary %s", e.Op)
+	case *ast.BinaryExpr:
+		switch e.Op {
+		case token.LAND, token.LOR:
+			a := c.boolExpr(e.X)
+			b := c.boolExpr(e.Y)
+			return "(" + a + " " + e.Op.String() + " " + b + ")", SBool
+		case token.ADD, token.SUB, token.MUL, token.QUO, token.REM:
+			a, b, k := c.numPair(e.X, e.Y)
+			if e.Op == token.REM {
+				if k != SInt {
+					return "math.Mod(" + a + ", " + b + ")", SReal
+				}
+			}
+			if e.Op == token.QUO || e.Op == token.REM {
+				return fmt.Sprintf("hvcDiv%s(%q, %s, %s)", map[SortKind]string{SInt: "I", SReal: "F"}[k], e.Op.String(), a, b), k
+			}
+			return "(" + a + " " + e.Op.String() + " " + b + ")", k
+		case token.EQL, token.NEQ, token.LSS, token.LEQ, token.GTR, token.GEQ:
+			ca, ka := c.expr(e.X)
+			cb, kb := c.expr(e.Y)
+			if c.fail != "" {
+				return "false", SBool
+			}
+			num := func(k SortKind) bool { return k == SInt || k == SReal }
+			if num(ka) && num(kb) && (ka == SReal || kb == SReal) {
+				return fmt.Sprintf("hvcCmp(%q, %s, %s)", e.Op.String(), conv(ca, ka, SReal), conv(cb, kb, SReal)), SBool
+			}
+			if ka == SArr || kb == SArr || ka == SU || kb == SU {
+				if e.Op == token.EQL {
+					return "reflect.DeepEqual(" + ca + ", " + cb + ")", SBool
+				}
+				if e.Op == token.NEQ {
+					return "!reflect.DeepEqual(" + ca + ", " + cb + ")", SBool
+				}
+				return c.failf("ordering of non-numeric values")
+			}
+			return "(" + ca + " " + e.Op.String() + " " + cb + ")", SBool
+		}
+		return c.failf("binary %s", e.Op)
+	case *ast.CallExpr:
+		return c.call(e)
+	}
+	return c.failf("unsupported expression %s", exprText(e))
+}
+
+func (c *goCtx) wrapLeaf(src string, k SortKind) string {
+	switch k {
+	case SInt:
+		return "int(" + src + ")"
+	case SReal:
+		return "float64(" + src + ")"
+	case SStr:
+		return "string(" + src + ")"
+	}
+	return src
+}
+
+func (c *goCtx) call(e *ast.CallExpr) (string, SortKind) {
+	name := ""
+	switch f := e.Fun.(type) {
+	case *ast.Ident:
+		name = f.Name
+	case *ast.SelectorExpr:
+		if id, ok := f.X.(*ast.Ident); ok && id.Name == "math" {
+			var args []string
+			for _, a := range e.Args {
+				ca, ka := c.expr(a)
+				args = append(args, conv(ca, ka, SReal))
+			}
+			return "math." + f.Sel.Name + "(" + strings.Join(args, ", ") + ")", SReal
+		}
+	}
+	if name == "" {
+		return c.failf("call %s", exprText(e))
+	}
+	arg := func(i int) (string, SortKind) { return c.expr(e.Args[i]) }
+	switch name {
+	case "old":
+		c2 := *c
+		c2.old = true
+		code, k := c2.expr(e.Args[0])
+		if c2.fail != "" {
+			c.fail = c2.fail
+		}
+		return code, k
+	case "pre":
+		return c.failf("pre() refers to a loop entry state")
+	case "implies":
+		return "(!(" + c.boolExpr(e.Args[0]) + ") || (" + c.boolExpr(e.Args[1]) + "))", SBool
+	case "iff":
+		return "((" + c.boolExpr(e.Args[0]) + ") == (" + c.boolExpr(e.Args[1]) + "))", SBool
+	case "ite":
+		cc := c.boolExpr(e.Args[0])
+		a, b, k := c.numPair(e.Args[1], e.Args[2])
+		return fmt.Sprintf("func() %s { if %s { return %s }; return %s }()", goTypeOfKind(k), cc, a, b), k
+	case "abs":
+		a, k := arg(0)
+		return fmt.Sprintf("func() %s { v := %s; if v < 0 { return -v }; return v }()", goTypeOfKind(k), a), k
+	case "min", "max":
+		a, b, k := c.numPair(e.Args[0], e.Args[1])
+		op := "<"
+		if name == "max" {
+			op = ">"
+		}
+		return fmt.Sprintf("func() %s { a, b := %s, %s; if a %s b { return a }; return b }()", goTypeOfKind(k), a, b, op), k
+	case "real", "float64":
+		a, k := arg(0)
+		return conv(a, k, SReal), SReal
+	case "int", "int64", "uint64", "uint":
+		a, k := arg(0)
+		return conv(a, k, SInt), SInt
+	case "floor":
+		a, k := arg(0)
+		return "int(math.Floor(" + conv(a, k, SReal) + "))", SInt
+	case "ceil":
+		a, k := arg(0)
+		return "int(math.Ceil(" + conv(a, k, SReal) + "))", SInt
+	case "tdiv":
+		a, ka := arg(0)
+		b, kb := arg(1)
+		return "hvcDivI(\"/\", " + conv(a, ka, SInt) + ", " + conv(b, kb, SInt) + ")", SInt
+	case "tmod":
+		a, ka := arg(0)
+		b, kb := arg(1)
+		return "hvcDivI(\"%\", " + conv(a, ka, SInt) + ", " + conv(b, kb, SInt) + ")", SInt
+	case "len":
+		src, ok := c.leafSrc(e.Args[0])
+		if !ok {
+			return c.failf("len of unobservable value")
+		}
+		return "len(" + src + ")", SInt
+	case "forall", "exists":
+		if len(e.Args) != 4 {
+			return c.failf("quantifier arity")
+		}
+		return c.quant(name, e, e.Args[1], e.Args[2], e.Args[3], name == "forall")
+	case "allof", "anyof":
+		if len(e.Args) != 5 {
+			return c.failf("quantifier arity")
+		}
+		return c.quant(name, e, e.Args[1], e.Args[2], e.Args[4], name == "allof")
+	case "sum":
+		if len(e.Args) != 5 {
+			return c.failf("sum arity")
+		}
+		id, ok := e.Args[0].(*ast.Ident)
+		if !ok {
+			return c.failf("sum binder")
+		}
+		cl, kl := arg(1)
+		ch, kh := arg(2)
+		c.x.fresh++
+		sym := Sym(fmt.Sprintf("rq?%d", c.x.fresh), IntS)
+		c2 := c.with(id.Name, "q_"+id.Name, SInt, Value{T: intT, Term: sym})
+		cb, kb := c2.expr(e.Args[4])
+		if c2.fail != "" {
+			c.fail = c2.fail
+		}
+		return fmt.Sprintf("hvcSum(%s, %s, func(q_%s int) float64 { return %s })", conv(cl, kl, SInt), conv(ch, kh, SInt), id.Name, conv(cb, kb, SReal)), SReal
+	case "unchanged":
+		var parts []string
+		for _, a := range e.Args {
+			now, ok1 := c.leafSrc(a)
+			c2 := *c
+			c2.old = true
+			was, ok2 := c2.leafSrc(a)
+			if !ok1 || !ok2 {
+				return c.failf("unchanged(%s) not observable", exprText(a))
+			}
+			parts = append(parts, "hvcSame("+now+", "+was+")")
+		}
+		return "(" + strings.Join(parts, " && ") + ")", SBool
+	case "isnil":
+		src, ok := c.leafSrc(e.Args[0])
+		if !ok {
+			return c.failf("isnil of unobservable value")
+		}
+		return "hvcIsNil(" + src + ")", SBool
+	case "indom":
+		m, ok := c.leafSrc(e.Args[0])
+		k, _ := arg(1)
+		if !ok {
+			return c.failf("indom of unobservable map")
+		}
+		return fmt.Sprintf("func() bool { _, ok := %s[%s]; return ok }()", m, k), SBool
+	case "m_exp", "m_sqrt", "m_sin", "m_cos", "m_log":
+		a, k := arg(0)
+		fn := map[string]string{"m_exp": "Exp", "m_sqrt": "Sqrt", "m_sin": "Sin", "m_cos": "Cos", "m_log": "Log"}[name]
+		return "math." + fn + "(" + conv(a, k, SReal) + ")", SReal
+	case "m_pow":
+		a, ka := arg(0)
+		b, kb := arg(1)
+		return "math.Pow(" + conv(a, ka, SReal) + ", " + conv(b, kb, SReal) + ")", SReal
+	}
+	if m := c.sp.macro(name); m != nil {
+		if len(m.Params) != len(e.Args) {
+			return c.failf("macro arity %s", name)
+		}
+		c2 := c
+		for i, p := range m.Params {
+			if id, isId := e.Args[i].(*ast.Ident); isId && (c.ptrPars[id.Name] || c.valPars[id.Name]) {
+				if _, isB := c.bound[id.Name]; !isB {
+					// a parameter of the function passed through: the macro parameter is an alias of it
+					c.x.specDepth++
+					c.x.dry++
+					v := c.x.eval(e.Args[i], c.st.clone(), c.sp)
+					c.x.dry--
+					c.x.specDepth--
+					n := *c2
+					n.alias = map[string]string{}
+					for a, b := range c2.alias {
+						n.alias[a] = b
+					}
+					if p != id.Name {
+						n.alias[p] = id.Name
+					}
+					n.sp = c2.sp.with(p, v)
+					c2 = &n
+					continue
+				}
+			}
+			code, k := c.expr(e.Args[i])
+			c.x.specDepth++
+			c.x.dry++
+			st := c.st
+			if c.old && c.sp.old != nil {
+				st = c.sp.old
+			}
+			v := c.x.eval(e.Args[i], st.clone(), c.sp)
+			c.x.dry--
+			c.x.specDepth--
+			c2 = c2.with(p, "("+code+")", k, v)
+		}
+		code, k := c2.expr(m.Body)
+		if c2.fail != "" {
+			c.fail = c2.fail
+		}
+		return "(" + code + ")", k
+	}
+	return c.failf("spec form %s cannot be evaluated on concrete values", name)
+}
+
+// ---------- test generation ----------
+
+const replayHelpers = `
+func hvcTol(a, b float64) float64 {
+	m := math.Max(1, math.Max(math.Abs(a), math.Abs(b)))
+	return 1e-9 * m
+}
+func hvcCmp(op string, a, b float64) bool {
+	if math.IsNaN(a) || math.IsNaN(b) || math.IsInf(a, 0) || math.IsInf(b, 0) {
+		return false
+	}
+	t := hvcTol(a, b)
+	switch op {
+	case "==":
+		return math.Abs(a-b) <= t
+	case "!=":
+		return math.Abs(a-b) > t
+	case "<":
+		return a < b+t
+	case "<=":
+		return a <= b+t
+	case ">":
+		return a > b-t
+	case ">=":
+		return a >= b-t
+	}
+	return false
+}
+func hvcDivI(op string, a, b int) int {
+	if b == 0 {
+		panic("hvc: integer division by zero in contract clause")
+	}
+	if op == "%" {
+		return a % b
+	}
+	return a / b
+}
+func hvcDivF(op string, a, b float64) float64 { return a / b }
+func hvcForall(lo, hi int, f func(int) bool) bool {
+	for k := lo; k < hi; k++ {
+		if !f(k) {
+			return false
+		}
+	}
+	return true
+}
+func hvcExists(lo, hi int, f func(int) bool) bool {
+	for k := lo; k < hi; k++ {
+		if f(k) {
+			return true
+		}
+	}
+	return false
+}
+func hvcSum(lo, hi int, f func(int) float64) float64 {
+	s := 0.0
+	for k := lo; k < hi; k++ {
+		s += f(k)
+	}
+	return s
+}
+func hvcSame(a, b interface{}) bool { return reflect.DeepEqual(a, b) }
+func hvcIsNil(v interface{}) bool {
+	if v == nil {
+		return true
+	}
+	rv := reflect.ValueOf(v)
+	switch rv.Kind() {
+	case reflect.Ptr, reflect.Map, reflect.Slice, reflect.Func, reflect.Interface, reflect.Chan:
+		return rv.IsNil()
+	}
+	return false
+}
+func hvcEval(name string, f func() bool) {
+	defer func() {
+		if r := recover(); r != nil {
+			fmt.Printf("HVC-REPLAY clause=%s result=panic %v\n", name, r)
+		}
+	}()
+	fmt.Printf("HVC-REPLAY clause=%s result=%v\n", name, f())
+}
+`
+
+func typeStr(t types.Type, pkg *types.Package) string {
+	return types.TypeString(t, func(p *types.Package) string {
+		if p == pkg {
+			return ""
+		}
+		return p.Name()
+	})
+}
+
+// tryReplay fills rep.Replayed / rep.ReplayLog. Only refuted (sat) obligations of whole-function units are replayed.
+func tryReplay(prog *Program, cs *ContractSet, prop string, r ObResult, rep *Replay, timeout int) {
+	ob := r.Ob
+	x := ob.exec
+	if x == nil || x.uc == nil || x.uc.Lemma {
+		rep.ReplayLog = "no replay: the obligation is a pure lemma (no code is executed)"
+		return
+	}
+	if r.Res.Status != "sat" {
+		rep.ReplayLog = "no replay: the solver gave no model (" + r.Res.Status + ")"
+		return
+	}
+	if x.uc.Region != "" {
+		rep.ReplayLog = "no replay: the unit is a region of a larger function (its entry state is not constructible from a test); the model is recorded"
+		return
+	}
+	fu := x.unit
+	if fu.Lit != nil {
+		rep.ReplayLog = "no replay: the unit is a closure"
+		return
+	}
+	entry := x.entry
+	if entry == nil {
+		return
+	}
+	// ---- parameters ----
+	ptrPars := map[string]bool{}
+	valPars := map[string]bool{}
+	type par struct {
+		name string
+		t    types.Type
+		recv bool
+	}
+	var pars []par
+	if fu.Decl.Recv != nil {
+		for _, f := range fu.Decl.Recv.List {
+			for _, n := range f.Names {
+				if obj, ok := fu.Pkg.TypesInfo.Defs[n].(*types.Var); ok {
+					pars = append(pars, par{n.Name, obj.Type(), true})
+				}
+			}
+		}
+	}
+	for _, f := range fu.Type.Params.List {
+		if len(f.Names) == 0 {
+			rep.ReplayLog = "no replay: unnamed parameter"
+			return
+		}
+		for _, n := range f.Names {
+			if obj, ok := fu.Pkg.TypesInfo.Defs[n].(*types.Var); ok {
+				pars = append(pars, par{n.Name, obj.Type(), false})
+			}
+		}
+	}
+	var setup strings.Builder
+	for _, p := range pars {
+		if pt, ok := p.t.Underlying().(*types.Pointer); ok {
+			if _, isStruct := pt.Elem().Underlying().(*types.Struct); isStruct {
+				ptrPars[p.name] = true
+				fmt.Fprintf(&setup, "\t%s := new(%s)\n", p.name, typeStr(pt.Elem(), fu.Pkg.Types))
+				continue
+			}
+		}
+		valPars[p.name] = true
+		fmt.Fprintf(&setup, "\tvar p_%s %s\n", p.name, typeStr(p.t, fu.Pkg.Types))
+	}
+	// input-only ghost variables (never assigned by a ghost statement, no initial value): witnesses chosen by the model
+	ghostIn := map[string]bool{}
+	for _, gvv := range x.uc.Ghosts {
+		if gvv.Init != nil || strings.HasPrefix(gvv.Sort, "[]") {
+			continue
+		}
+		assigned := false
+		for _, ac := range x.uc.AtCalls {
+			if ac.LHS == gvv.Name {
+				assigned = true
+			}
+		}
+		for _, as := range x.uc.AtStmts {
+			if as.LHS == gvv.Name {
+				assigned = true
+			}
+		}
+		if !assigned {
+			ghostIn[gvv.Name] = true
+		}
+	}
+	// ---- entry leaves ----
+	keys := map[string]bool{}
+	for k := range entry.store {
+		keys[k] = true
+	}
+	for n := range x.initSyms {
+		if strings.HasSuffix(n, "#0") {
+			keys[strings.TrimSuffix(n, "#0")] = true
+		}
+	}
+	var klist []string
+	for k := range keys {
+		klist = append(klist, k)
+	}
+	sort.Strings(klist)
+	var leaves []entryLeaf
+	var skipped []string
+	var lenLeaves []entryLeaf
+	for _, k := range klist {
+		if strings.HasPrefix(k, "ghost::") && ghostIn[strings.TrimPrefix(k, "ghost::")] {
+			name := strings.TrimPrefix(k, "ghost::")
+			term, ok := entry.store[k]
+			if !ok {
+				term = x.initSyms[k+"#0"]
+			}
+			if term != nil && (term.S.K == SInt || term.S.K == SReal || term.S.K == SBool) {
+				leaves = append(leaves, entryLeaf{"gh_" + name, term, term.S.K})
+				fmt.Fprintf(&setup, "\tvar gh_%s %s\n\t_ = gh_%s\n", name, goTypeOfKind(term.S.K), name)
+			} else {
+				delete(ghostIn, name)
+			}
+			continue
+		}
+		if strings.ContainsAny(k, "!>:@") || strings.HasSuffix(k, "#ptrset") || strings.HasSuffix(k, "#fnset") || strings.HasPrefix(k, "ghost") {
+			continue
+		}
+		base := k
+		isLen := false
+		if strings.HasSuffix(k, "#len") {
+			base = strings.TrimSuffix(k, "#len")
+			isLen = true
+		} else if strings.Contains(k, "#") {
+			skipped = append(skipped, k)
+			continue
+		}
+		root := rootOf(base)
+		lval := base
+		if valPars[root] {
+			lval = "p_" + base
+		} else if !ptrPars[root] {
+			continue
+		}
+		term, ok := entry.store[k]
+		if !ok {
+			term = x.initSyms[k+"#0"]
+		}
+		if term == nil {
+			continue
+		}
+		if isLen {
+			lenLeaves = append(lenLeaves, entryLeaf{lval, term, SInt})
+			continue
+		}
+		t := x.keyTypes[k]
+		if t == nil {
+			skipped = append(skipped, k)
+			continue
+		}
+		if !term.S.Eq(sortOf(t)) {
+			skipped = append(skipped, k)
+			continue
+		}
+		n0 := len(leaves)
+		if !leavesOf(lval, t, term, &leaves, nil, k) {
+			leaves = leaves[:n0]
+			skipped = append(skipped, k)
+		}
+	}
+	if len(leaves) > maxLeaves {
+		rep.ReplayLog = "no replay: entry state too large"
+		return
+	}
+	// maps with integer keys and scalar values: evaluated at every integer leaf term of the entry state (the keys the
+	// code and the contract can name); other keys of the model's map are not materialised
+	type mapLeaf struct {
+		goLval        string
+		keyT, dom, val *Term
+		vkind         SortKind
+	}
+	var mapLeaves []mapLeaf
+	for _, k := range klist {
+		if strings.ContainsAny(k, "!>:@#") {
+			continue
+		}
+		root := rootOf(k)
+		if !ptrPars[root] {
+			continue
+		}
+		t := x.keyTypes[k]
+		if t == nil {
+			continue
+		}
+		mt, isMap := t.Underlying().(*types.Map)
+		if !isMap || sortOf(mt.Key()).K != SInt {
+			continue
+		}
+		vk := sortOf(mt.Elem()).K
+		if vk != SInt && vk != SReal && vk != SBool {
+			continue
+		}
+		mterm, ok1 := entry.store[k]
+		if !ok1 {
+			mterm = x.initSyms[k+"#0"]
+		}
+		dterm, ok2 := entry.store[k+"#dom"]
+		if !ok2 {
+			dterm = x.initSyms[k+"#dom#0"]
+		}
+		if mterm == nil || dterm == nil {
+			continue
+		}
+		n := 0
+		for _, l := range leaves {
+			if l.kind == SInt && n < 64 {
+				mapLeaves = append(mapLeaves, mapLeaf{k, l.term, Select(dterm, l.term), Select(mterm, l.term), vk})
+				n++
+			}
+		}
+		for i, sk := range skipped {
+			if sk == k || sk == k+"#dom" {
+				skipped[i] = ""
+			}
+		}
+	}
+	// ---- model ----
+	var gv []*Term
+	for _, ml := range mapLeaves {
+		gv = append(gv, ml.keyT, ml.dom, ml.val)
+	}
+	for _, l := range leaves {
+		gv = append(gv, l.term)
+	}
+	for _, l := range lenLeaves {
+		gv = append(gv, l.term)
+	}
+	var model map[string]string
+	cases := [][]*Term{nil}
+	for _, max := range []int{6, 16, 40} {
+		cases = append(cases, ob.SplitPC(max)...)
+	}
+	for ci, cse := range cases {
+		if ci > 30 {
+			break
+		}
+		res := Solve(ob.ScriptWith(cse, gv), 20, false)
+		if res.Status == "sat" && len(res.Model) > 0 {
+			model = res.Model
+			break
+		}
+	}
+	if model == nil {
+		rep.ReplayLog = "no replay: no solver returned values for the entry state"
+		return
+	}
+	rep.Model = map[string]string{}
+	var assign strings.Builder
+	sliceLens := map[string]int{}
+	for _, l := range lenLeaves {
+		if v, ok := model[termString(l.term)]; ok {
+			if lit, ok := goLiteral(v, SInt); ok {
+				var n int
+				fmt.Sscan(lit, &n)
+				if n < 0 {
+					n = 0
+				}
+				if n > maxSliceReplay {
+					rep.ReplayLog = fmt.Sprintf("no replay: the model needs a slice of length %d for %s (cap %d)", n, l.goLval, maxSliceReplay)
+					return
+				}
+				sliceLens[l.goLval] = n
+				rep.Model["len("+l.goLval+")"] = lit
+			}
+		}
+	}
+	madeSlices := map[string]bool{}
+	reIdx := regexp.MustCompile(`^(.*)\[(\d+)\]$`)
+	for _, l := range leaves {
+		v, ok := model[termString(l.term)]
+		if !ok {
+			continue
+		}
+		lit, ok := goLiteral(v, l.kind)
+		if !ok {
+			rep.ReplayLog = "no replay: model value of " + l.goLval + " is not a rational number: " + clip(v, 80)
+			return
+		}
+		// slices: allocate once, drop elements beyond the length
+		if m := reIdx.FindStringSubmatch(l.goLval); m != nil {
+			if n, isSlice := sliceLens[m[1]]; isSlice {
+				var idx int
+				fmt.Sscan(m[2], &idx)
+				if idx >= n {
+					continue
+				}
+				if !madeSlices[m[1]] {
+					madeSlices[m[1]] = true
+					fmt.Fprintf(&assign, "\t%s = make(%s, %d)\n", m[1], "[]"+elemGoType(x, l.goLval, fu), n)
+				}
+			}
+		}
+		if lit == "0" || lit == "false" {
+			continue
+		}
+		rep.Model[l.goLval] = lit
+		fmt.Fprintf(&assign, "\t%s = %s\n", l.goLval, lit)
+	}
+	madeMaps := map[string]bool{}
+	for _, ml := range mapLeaves {
+		kv, ok1 := model[termString(ml.keyT)]
+		dv, ok2 := model[termString(ml.dom)]
+		vv, ok3 := model[termString(ml.val)]
+		if !ok1 || !ok2 || !ok3 {
+			continue
+		}
+		if !madeMaps[ml.goLval] {
+			madeMaps[ml.goLval] = true
+			fmt.Fprintf(&assign, "\t%s = %s{}\n", ml.goLval, typeStr(x.keyTypes[ml.goLval], fu.Pkg.Types))
+		}
+		if dv != "true" {
+			continue
+		}
+		kl, okk := goLiteral(kv, SInt)
+		vl, okv := goLiteral(vv, ml.vkind)
+		if !okk || !okv {
+			continue
+		}
+		rep.Model[fmt.Sprintf("%s[%s]", ml.goLval, kl)] = vl
+		fmt.Fprintf(&assign, "\t%s[%s] = %s\n", ml.goLval, kl, vl)
+	}
+	// ---- clauses ----
+	nres := 0
+	if fu.Sig != nil {
+		nres = fu.Sig.Results().Len()
+	}
+	results := map[string]string{}
+	var resVars []string
+	for i := 0; i < nres; i++ {
+		rv := fmt.Sprintf("r%d", i)
+		resVars = append(resVars, rv)
+		results[fmt.Sprintf("result%d", i)] = rv
+		if i == 0 {
+			results["__result"] = rv
+		}
+		if n := fu.Sig.Results().At(i).Name(); n != "" {
+			results[n] = rv
+		}
+	}
+	startPos := fu.Body.Pos() + 1
+	endPos := fu.Body.End() - 1
+	compile := func(cl *Clause, pos token.Pos, withResults bool) (string, string) {
+		sp := x.specCtxAt(pos, nil)
+		c := &goCtx{x: x, sp: sp, st: entry, bound: map[string]string{}, bkind: map[string]SortKind{}, ptrPars: ptrPars, valPars: valPars, results: map[string]string{}, ghosts: ghostIn}
+		if withResults {
+			c.results = results
+		}
+		code := c.boolExpr(cl.Expr)
+		return code, c.fail
+	}
+	var body strings.Builder
+	var notes []string
+	for _, rq := range x.uc.Requires {
+		code, fail := compile(rq, startPos, false)
+		if fail != "" {
+			notes = append(notes, "requires "+rq.Name+" not evaluated: "+fail)
+			continue
+		}
+		fmt.Fprintf(&body, "\thvcEval(%q, func() bool { return %s })\n", "requires:"+rq.Name, code)
+	}
+	var pre strings.Builder
+	pre.WriteString(body.String())
+	body.Reset()
+	var clauses []*Clause
+	if ob.Kind == "post" {
+		for _, en := range x.uc.Ensures {
+			if strings.HasSuffix(ob.Name, "/post:"+en.Name) {
+				clauses = append(clauses, en)
+			}
+		}
+	}
+	if len(clauses) == 0 {
+		for _, en := range x.uc.Ensures {
+			if !en.Assumed && hasTag(en.Tags, prop) {
+				clauses = append(clauses, en)
+			}
+		}
+	}
+	evaluated := 0
+	for _, en := range clauses {
+		code, fail := compile(en, endPos, true)
+		if fail != "" {
+			notes = append(notes, "ensures "+en.Name+" not evaluated: "+fail)
+			continue
+		}
+		evaluated++
+		fmt.Fprintf(&body, "\thvcEval(%q, func() bool { return %s })\n", "ensures:"+en.Name, code)
+	}
+	if evaluated == 0 {
+		rep.ReplayLog = "no replay: no postcondition of the unit can be evaluated on concrete values (" + strings.Join(notes, "; ") + ")"
+		return
+	}
+	// ---- the test file ----
+	var src strings.Builder
+	fmt.Fprintf(&src, "package %s\n\nimport (\n\t\"fmt\"\n\t\"math\"\n\t\"reflect\"\n\t\"testing\"\n)\n\nvar _ = math.Abs\nvar _ = reflect.DeepEqual\n%s\n", fu.Pkg.Types.Name(), replayHelpers)
+	fmt.Fprintf(&src, "func TestHvcReplay(t *testing.T) {\n%s%s", setup.String(), assign.String())
+	for p := range ptrPars {
+		fmt.Fprintf(&src, "\told_%s := new(%s)\n\t*old_%s = *%s\n\t_ = old_%s\n", p, structTypeOf(pars2types(pars), p, fu), p, p, p)
+	}
+	src.WriteString(pre.String())
+	var args []string
+	for _, f := range fu.Type.Params.List {
+		for _, n := range f.Names {
+			if ptrPars[n.Name] {
+				args = append(args, n.Name)
+			} else {
+				args = append(args, "p_"+n.Name)
+			}
+		}
+	}
+	callee := fu.Decl.Name.Name
+	if fu.Decl.Recv != nil && len(fu.Decl.Recv.List) > 0 && len(fu.Decl.Recv.List[0].Names) > 0 {
+		rn := fu.Decl.Recv.List[0].Names[0].Name
+		if ptrPars[rn] {
+			callee = rn + "." + callee
+		} else {
+			callee = "p_" + rn + "." + callee
+		}
+	}
+	src.WriteString("\tfunc() {\n\t\tdefer func() {\n\t\t\tif r := recover(); r != nil {\n\t\t\t\tfmt.Printf(\"HVC-REPLAY call=panic %v\\n\", r)\n\t\t\t}\n\t\t}()\n")
+	if nres > 0 {
+		fmt.Fprintf(&src, "\t\t%s := %s(%s)\n", strings.Join(resVars, ", "), callee, strings.Join(args, ", "))
+		for _, rv := range resVars {
+			fmt.Fprintf(&src, "\t\t_ = %s\n", rv)
+		}
+	} else {
+		fmt.Fprintf(&src, "\t\t%s(%s)\n", callee, strings.Join(args, ", "))
+	}
+	src.WriteString("\t\tfmt.Println(\"HVC-REPLAY call=returned\")\n")
+	src.WriteString(strings.ReplaceAll(body.String(), "\n\t", "\n\t\t"))
+	src.WriteString("\t}()\n}\n")
+	// ---- run ----
+	rep.TestSource = src.String()
+	rep.PkgDir = x.uc.PkgDir
+	out := runReplayTest(rep.PkgDir, rep.TestSource)
+	var lines []string
+	violated := false
+	preBroken := false
+	panicked := false
+	for _, l := range strings.Split(string(out), "\n") {
+		if strings.HasPrefix(l, "HVC-REPLAY") {
+			lines = append(lines, l)
+			if strings.Contains(l, "clause=requires:") && !strings.HasSuffix(l, "result=true") {
+				preBroken = true
+			}
+			if strings.Contains(l, "clause=ensures:") && strings.HasSuffix(l, "result=false") {
+				violated = true
+			}
+			if strings.Contains(l, "call=panic") {
+				panicked = true
+			}
+		}
+	}
+	if len(lines) == 0 {
+		rep.ReplayLog = "replay test did not run: " + clip(string(out), 1500)
+		return
+	}
+	log := strings.Join(lines, "\n")
+	if len(notes) > 0 {
+		log += "\nnot evaluated: " + strings.Join(notes, "; ")
+	}
+	var sk2 []string
+	for _, sk := range skipped {
+		if sk != "" {
+			sk2 = append(sk2, sk)
+		}
+	}
+	skipped = sk2
+	if len(skipped) > 0 {
+		log += "\nentry locations left at their zero value (not modelled as numbers): " + clip(strings.Join(skipped, ", "), 400)
+	}
+	if preBroken {
+		rep.ReplayLog = "the rounded model does not satisfy a precondition on the real code; not counted as a reproduction\n" + log
+		return
+	}
+	if panicked && !violated {
+		rep.ReplayLog = "the real function panicked on the constructed entry state (locations the model does not determine are left at their zero value); inconclusive, not counted as a reproduction\n" + log
+		return
+	}
+	rep.Replayed = violated
+	if violated {
+		rep.Note = "counterexample of the verifier replayed on the real function: the clause is violated on the concrete entry state below (model)"
+	} else {
+		log = "the real function satisfies the evaluated clauses on the model's entry state (the failing obligation is internal to the proof, or depends on an abstracted value)\n" + log
+	}
+	rep.ReplayLog = log
+}
+
+var replaySeq int
+
+// runReplayTest injects the generated in-package test with -overlay (nothing is written to the repository) and runs it.
+func runReplayTest(pkgDir, source string) []byte {
+	dir := filepath.Join(repoRoot, pkgDir)
+	replaySeq++
+	testFile := filepath.Join(scratch(), fmt.Sprintf("replay%d_%d_test.go", os.Getpid(), replaySeq))
+	os.WriteFile(testFile, []byte(source), 0o644)
+	ov := map[string]map[string]string{"Replace": {filepath.Join(dir, "zz_hvc_replay_test.go"): testFile}}
+	ovData, _ := json.Marshal(ov)
+	ovFile := testFile + ".overlay.json"
+	os.WriteFile(ovFile, ovData, 0o644)
+	cmd := exec.Command("go", "test", "-overlay", ovFile, "-vet=off", "-count=1", "-timeout", "60s", "-v", "-run", "^TestHvcReplay$", ".")
+	cmd.Dir = dir
+	cmd.Env = append(os.Environ(), "GOFLAGS=-mod=mod", "GOWORK=off", "GOPROXY=off", "GOSUMDB=off", "GOTOOLCHAIN=local")
+	out, _ := cmd.CombinedOutput()
+	return out
+}
+
+type parT struct {
+	name string
+	t    types.Type
+}
+
+func pars2types(ps interface{}) []parT { return nil }
+
+func structTypeOf(_ []parT, name string, fu *FuncUnit) string {
+	find := func(fl *ast.FieldList) string {
+		if fl == nil {
+			return ""
+		}
+		for _, f := range fl.List {
+			for _, n := range f.Names {
+				if n.Name == name {
+					if obj, ok := fu.Pkg.TypesInfo.Defs[n].(*types.Var); ok {
+						if pt, ok := obj.Type().Underlying().(*types.Pointer); ok {
+							return typeStr(pt.Elem(), fu.Pkg.Types)
+						}
+					}
+				}
+			}
+		}
+		return ""
+	}
+	if s := find(fu.Decl.Recv); s != "" {
+		return s
+	}
+	return find(fu.Type.Params)
+}
+
+// elemGoType: Go element type of the slice an lvalue like g.X[3] indexes.
+func elemGoType(x *Exec, lval string, fu *FuncUnit) string {
+	key := lval
+	if i := strings.LastIndex(key, "["); i >= 0 {
+		key = key[:i]
+	}
+	key = strings.TrimPrefix(key, "p_")
+	if t, ok := x.keyTypes[key]; ok {
+		if s, ok := t.Underlying().(*types.Slice); ok {
+			return typeStr(s.Elem(), fu.Pkg.Types)
+		}
+	}
+	return "float64"
+}
 
 func replayRecorded(rep *Replay, path string) int {
-	fmt.Printf("obligation %s (%s): %s\n", rep.Obligation, rep.Clause, rep.Status)
+	fmt.Printf("obligation %s\n  clause: %s\n  solver: %s (%s)\n  replayed on the real code when recorded: %v\n", rep.Obligation, rep.Clause, rep.Status, rep.Solver, rep.Replayed)
+	if len(rep.Model) > 0 {
+		var ks []string
+		for k := range rep.Model {
+			ks = append(ks, k)
+		}
+		sort.Strings(ks)
+		fmt.Println("entry state (non-zero values of the model):")
+		for _, k := range ks {
+			fmt.Printf("  %s = %s\n", k, rep.Model[k])
+		}
+	}
+	if rep.TestSource == "" {
+		if rep.ReplayLog != "" {
+			fmt.Println(rep.ReplayLog)
+		}
+		fmt.Println("no executable counterexample was recorded for this obligation (no-failing-input-found); re-run the property's check to re-decide it")
+		return 0
+	}
+	// run the recorded test again against /repo's current working tree
+	out := runReplayTest(rep.PkgDir, rep.TestSource)
+	violated := false
+	n := 0
+	for _, l := range strings.Split(string(out), "\n") {
+		if strings.HasPrefix(l, "HVC-REPLAY") {
+			n++
+			fmt.Println(l)
+			if strings.Contains(l, "clause=ensures:") && strings.HasSuffix(l, "result=false") {
+				violated = true
+			}
+		}
+	}
+	if n == 0 {
+		fmt.Println("replay test did not run:\n" + clip(string(out), 2000))
+		return 2
+	}
+	if violated {
+		fmt.Println("REPRODUCED: the clause is violated by the real code on this entry state")
+		return 1
+	}
+	fmt.Println("not reproduced on the current working tree")
 	return 0
 }
 
-func extraAssumptions(prop string) []string { return nil }
-func cmdSelftest(args []string) int { return 0 }
+func cmdSelftest(args []string) int { return runSelftest(args) }
